@@ -28,7 +28,7 @@ const ALPHABET: [char; 16] = ['"', '\\', '\n', ' ', '#', ';', 'a', 'Z', '\t', '%
 /// The six characters enumerated exhaustively (up to length 3) in the exhaustive part.
 const SPECIAL: [char; 6] = ['"', '\\', '\n', '#', ';', 'a'];
 
-const POSITIONS: [&str; 16] = [
+const POSITIONS: [&str; 19] = [
     "pragma-data",
     "pragma-extern-data",
     "include",
@@ -45,6 +45,9 @@ const POSITIONS: [&str; 16] = [
     "swap-phases-frames",
     "delay-one-name",
     "delay-two-names",
+    "defcircuit-body-pragma-data",
+    "defcal-body-frame-name",
+    "defcal-measure-body-pragma-data",
 ];
 
 fn frame(name: &str) -> FrameIdentifier {
@@ -78,6 +81,20 @@ fn build(position: usize, s: &str, s2: &str) -> Instruction {
         12 => rf::shift_phase(&frame(s), rf::real(1.0)),
         13 => rf::swap_phases(&frame(s), &frame(s2)),
         14 => Instruction::Delay(Delay { duration: rf::real(1.0), frame_names: vec![s.to_string()], qubits: vec![Qubit::Fixed(0)] }),
+        16 => Instruction::CircuitDefinition(quil_rs::instruction::CircuitDefinition {
+            name: "CIRC".into(),
+            parameters: vec![],
+            qubit_variables: vec!["q".into()],
+            instructions: vec![Instruction::Nop(), build(0, s, s2), Instruction::Nop()],
+        }),
+        17 => Instruction::CalibrationDefinition(quil_rs::instruction::CalibrationDefinition {
+            identifier: quil_rs::instruction::CalibrationIdentifier::new("X".into(), vec![], vec![], vec![Qubit::Fixed(0)]).unwrap(),
+            instructions: vec![build(5, s, s2), Instruction::Nop()],
+        }),
+        18 => Instruction::MeasureCalibrationDefinition(quil_rs::instruction::MeasureCalibrationDefinition {
+            identifier: quil_rs::instruction::MeasureCalibrationIdentifier { name: None, qubit: Qubit::Fixed(0), target: Some("addr".into()) },
+            instructions: vec![Instruction::Nop(), build(0, s, s2)],
+        }),
         _ => Instruction::Delay(Delay { duration: rf::real(1.0), frame_names: vec![s.to_string(), s2.to_string()], qubits: vec![Qubit::Fixed(0), Qubit::Fixed(1)] }),
     }
 }
@@ -105,6 +122,9 @@ fn extract(position: usize, i: &Instruction) -> Option<Vec<String>> {
         (12, Instruction::ShiftPhase(x)) => vec![x.frame.name.clone()],
         (13, Instruction::SwapPhases(x)) => vec![x.frame_1.name.clone(), x.frame_2.name.clone()],
         (14 | 15, Instruction::Delay(d)) => d.frame_names.clone(),
+        (16, Instruction::CircuitDefinition(c)) => c.instructions.iter().find_map(|i| extract(0, i))?,
+        (17, Instruction::CalibrationDefinition(c)) => c.instructions.iter().find_map(|i| extract(5, i))?,
+        (18, Instruction::MeasureCalibrationDefinition(c)) => c.instructions.iter().find_map(|i| extract(0, i))?,
         _ => return None,
     })
 }
@@ -188,7 +208,7 @@ impl Property for C07Prop {
         "C07"
     }
     fn rule(&self) -> &'static str {
-        "exhaustive: every string of length <= 2 (quick) / <= 3 (thorough) over the six characters {\" \\ LF # ; a} in each of 16 string-bearing positions (PRAGMA data, PRAGMA EXTERN data, INCLUDE, DEFFRAME name, two string frame attributes, frame name of PULSE / CAPTURE / RAW-CAPTURE / SET-FREQUENCY / SET-PHASE / SET-SCALE / SHIFT-FREQUENCY / SHIFT-PHASE, both frames of SWAP-PHASES, one and two DELAY frame names; second string = reversed first); random: strings of length <= 12 over 16 characters (adds space, TAB, %, @, :, digits, an accented letter, an astral-plane character, a single quote) with the six special ones over-weighted. Non-trivial = a held string contains a quote, backslash, newline, # or ;. Distinct by (position, strings)."
+        "exhaustive: every string of length <= 2 (quick) / <= 3 (thorough) over the six characters {\" \\ LF # ; a} in each of 19 string-bearing positions (PRAGMA data, PRAGMA EXTERN data, INCLUDE, DEFFRAME name, two string frame attributes, frame name of PULSE / CAPTURE / RAW-CAPTURE / SET-FREQUENCY / SET-PHASE / SET-SCALE / SHIFT-FREQUENCY / SHIFT-PHASE, both frames of SWAP-PHASES, one and two DELAY frame names, PRAGMA data inside a DEFCIRCUIT body and inside a DEFCAL MEASURE body, a frame name inside a DEFCAL body; second string = reversed first); random: strings of length <= 12 over 16 characters (adds space, TAB, %, @, :, digits, an accented letter, an astral-plane character, a single quote) with the six special ones over-weighted. Non-trivial = a held string contains a quote, backslash, newline, # or ;. Distinct by (position, strings)."
     }
     fn max_words(&self) -> usize {
         2 + 2 * 26
@@ -248,7 +268,7 @@ impl Property for C07Prop {
     fn exhaustive_part(&self, tier: Tier) -> Option<String> {
         let maxlen = tier.pick(2u32, 3u32);
         let n: u64 = (0..=maxlen).map(|l| 6u64.pow(l)).sum::<u64>() * POSITIONS.len() as u64;
-        Some(format!("all {n} (position, string) pairs with strings of length <= {maxlen} over the 6 special characters in 16 positions"))
+        Some(format!("all {n} (position, string) pairs with strings of length <= {maxlen} over the 6 special characters in 19 positions"))
     }
     fn floors(&self) -> Vec<(&'static str, f64)> {
         vec![("has-quote", 0.2), ("has-backslash", 0.1), ("delay-one-name", 0.03), ("include", 0.03)]
